@@ -84,7 +84,12 @@ pub struct Plan {
     /// Also compare the in-process sequential references with references
     /// computed in a pristine helper process (state leaking through statics).
     pub pristine: bool,
+    /// Number of CPUs the simulated process sees (`available_parallelism`; 0 = the real machine).
+    pub cpus: usize,
 }
+
+/// Machine sizes a run may be given (the machine-size seam, `sim_rayon::sys::sched_getaffinity`).
+pub const CPU_COUNTS: &[usize] = &[1, 2, 3, 4, 6, 8, 12, 16, 24, 32, 48, 64, 96, 128, 256];
 
 #[derive(Clone, Debug)]
 pub struct Limits {
@@ -234,6 +239,15 @@ pub fn plan_run(verif_seed: u64, run_index: u64, lim: &Limits) -> Plan {
         pristine: rng.chance(if nvar > 0 { 0.15 } else { 0.04 }),
         cases,
         history,
+        // a stream of its own, so that the rest of a plan is what it was before this existed
+        cpus: {
+            let mut r = Rng::new(mix(verif_seed, run_index, 0xC9C9));
+            if r.chance(0.25) {
+                0
+            } else {
+                *r.pick(CPU_COUNTS)
+            }
+        },
     }
 }
 
@@ -280,6 +294,7 @@ fn exec_sim_inner(plan: &Plan, replay: Option<Vec<u32>>, watchdog_s: u64) -> Run
         watchdog_s,
     };
     let sim = Sim::new(cfg, plan.sim_seed, replay);
+    sim_rayon::sys::set_sim_cpus(plan.cpus);
     sim.install();
     let mut outcomes = vec![];
     let mut marks = vec![];
@@ -300,6 +315,7 @@ fn exec_sim_inner(plan: &Plan, replay: Option<Vec<u32>>, watchdog_s: u64) -> Run
         }
     }
     Sim::uninstall();
+    sim_rayon::sys::set_sim_cpus(0);
     let r = RunResult {
         outcomes,
         decisions: sim.decisions(),
@@ -614,7 +630,8 @@ pub fn plan_to_json(plan: &Plan) -> J {
                 .set("pool_sizes", J::arr(plan.pool_sizes.iter().map(|p| J::u(*p as u64))))
                 .set("mean_gap", J::u(plan.mean_gap as u64))
                 .set("pct_depth", J::u(plan.pct_depth as u64))
-                .set("sim_seed", J::s(&plan.sim_seed.to_string())),
+                .set("sim_seed", J::s(&plan.sim_seed.to_string()))
+                .set("cpus", J::u(plan.cpus as u64)),
         )
         .set("cases", J::arr(plan.cases.iter().map(|c| c.to_json())))
         .set("pristine", J::Bool(plan.pristine))
@@ -698,6 +715,7 @@ pub fn plan_from_json(j: &J) -> Result<Plan, String> {
             _ => vec![Case::from_json(j.get("case").ok_or("cases missing")?)?],
         },
         pristine: j.get("pristine").and_then(|b| b.as_bool()).unwrap_or(false),
+        cpus: cfg.get("cpus").and_then(|s| s.as_u64()).unwrap_or(0) as usize,
         history,
     })
 }
@@ -949,6 +967,15 @@ pub fn minimise(plan: &Plan, decisions: &[u32], marks: &[usize], v: &Violation, 
                 accept!(f, format!("pool {} -> {} workers", pi, k));
                 break;
             }
+        }
+    }
+
+    // 3b. the real machine instead of a simulated number of CPUs
+    if best_plan.cpus != 0 {
+        let mut p = best_plan.clone();
+        p.cpus = 0;
+        if let Some(f) = try_cand(&p, &best_dec, 1, &mut evals) {
+            accept!(f, "simulated machine size off".to_string());
         }
     }
 
